@@ -43,6 +43,11 @@ def lists_cases():
         yield [[b'rpush', b'l', el], [b'brpoplpush', b'l', b'l', b'1'], [b'lrange', b'l', b'0', b'-1']]
         yield [[b'rpush', b'l', el, b'a'], [b'blpop', b'l', b'0'], [b'brpop', b'l', b'0'], [b'exists', b'l']]
         yield [[b'rpush', b'l', el], [b'multi'], [b'brpoplpush', b'l', b'm', b'0'], [b'blpop', b'nolist', b'0'], [b'exec'], [b'lrange', b'm', b'0', b'-1']]
+    # the timeout argument: whole seconds in canonical form only (everything else is refused before any list is looked at)
+    for t in (b'1.6', b'0.4', b'1.0', b'abc', b'-1', b'', b' 1', b'+1', b'01', b'1e3', b'9223372036854775808', b'0x1', b'1\n'):
+        for pre in ([], [[b'rpush', b'l', b'a', b'b']], [[b'set', b'l', b'str']]):
+            yield Always(pre + [[b'blpop', b'l', t], [b'brpop', b'nolist', b'l', t], [b'brpoplpush', b'l', b'm', t], [b'lrange', b'l', b'0', b'-1'], [b'exists', b'm'],
+                               [b'multi'], [b'blpop', b'l', t], [b'exec']])
 
 
 def sets_cases():
